@@ -258,6 +258,7 @@ def rule_filter_and_weights(ctx, R, path, who):
         return 0
     n = 0
     found = {'dist': False, 'votes': False, 'weight': False}
+    dist_cbs, votes_cbs = [], []
     for cb in all_closures(F, b):
         ctx.read(cb)
         eb = ExprBuilder(cb)
@@ -280,6 +281,7 @@ def rule_filter_and_weights(ctx, R, path, who):
                 if o[2].has_field('max_distance'):
                     n += 1
                     found['dist'] = True
+                    dist_cbs.append(cb)
                     ctx.check(o[0] == 'Le', R, cb, who + ':distance-counted-iff-le-max_distance',
                               '%r %s max_distance' % (o[1], o[0]),
                               'a distance is counted when `%r %s max_distance` (expected <=, i.e. "not exceeding")' % (
@@ -287,6 +289,7 @@ def rule_filter_and_weights(ctx, R, path, who):
                 elif o[2].has_field('min_votes'):
                     n += 1
                     found['votes'] = True
+                    votes_cbs.append(cb)
                     ctx.check(o[0] == 'Ge' and o[1].has_call('len'), R, cb, who + ':group-kept-iff-len-ge-min_votes',
                               '%r %s min_votes' % (o[1], o[0]),
                               'a (query, track) group is kept when `%r %s min_votes` (expected len >= min_votes)' % (
@@ -310,6 +313,30 @@ def rule_filter_and_weights(ctx, R, path, who):
                         found['weight'] = True
                         ctx.fail(R, cb, who + ':weight-term', 'vote weight is computed as Sub(%r, %r) (expected largest '
                                  'distance minus distance): closer matches get smaller weights' % (a, b2), s_['ln'])
+    # only counted distances are grouped: the acceptance test sits UPSTREAM of the group that is measured against
+    # min_votes, in the same adaptor chain
+    if dist_cbs and votes_cbs:
+        ebb = ExprBuilder(b)
+
+        def taker(cb):
+            for c in b.find_calls():
+                if any(x.npath == cb.npath for x in closure_args_of_call(F, b, c)):
+                    return c
+            return None
+        cv, cd = taker(votes_cbs[0]), taker(dist_cbs[0])
+        ok = False
+        if cv is not None and cd is not None:
+            x = ebb.arg(cv, 0)
+            while x is not None and x.kind == 'call':
+                if x.extra is cd:
+                    ok = True
+                x = x.args[0] if x.args else None
+        n += 1
+        ctx.check(ok, R, b, who + ':votes-counted-after-distance-filter',
+                  'the max_distance test is upstream of the min_votes test',
+                  'the group size compared with min_votes is taken %s: distances exceeding max_distance are counted as '
+                  'votes' % ('before the max_distance test is applied' if cd is None or cv is not None else
+                             '(min_votes test not in the main chain)'))
     for k, v in found.items():
         if not v:
             ctx.fail(R, b, who + ':' + k, 'ANCHOR-MISSING: could not find the %s rule of %s' % (k, who))
